@@ -340,12 +340,15 @@ pub fn run_sections(seed: u64, n: u64) -> SectionOut {
                     drop(tokio::spawn(serve(s, k, st, srv.clone())));
                 }
             });
-            let method = match rng.below(5) {
+            let method = match rng.below(7) {
                 0 => None,
                 1 => Some(RecyclingMethod::Fast),
                 2 => Some(RecyclingMethod::Verified),
                 3 => Some(RecyclingMethod::Clean),
-                _ => Some(RecyclingMethod::Custom(format!("SELECT 'c{}'", i))),
+                4 => Some(RecyclingMethod::Custom(format!("SELECT 'c{}'", i))),
+                // the custom statements that look like "nothing": still one round trip per recycle
+                5 => Some(RecyclingMethod::Custom(String::new())),
+                _ => Some(RecyclingMethod::Custom(" ".into())),
             };
             let max_size = rng.range(1, 5) as usize;
             let lifo = rng.chance(1, 2);
